@@ -27,7 +27,7 @@ HARNESS = os.path.join(ROOT, "harness")
 WORK = os.path.join(ROOT, "scratch")
 RDRIVER = os.path.join(LEAN, ".lake", "build", "bin", "rdriver")
 HBIN = os.path.join(HARNESS, "bin", "harness")
-REPO = "/repo"
+REPO = os.environ.get("VERIF_REPO", "/repo")   # an alternative checkout is used only by tools/seed_eval.py
 
 import props  # noqa: E402  (property table)
 
@@ -94,7 +94,16 @@ def build_harness():
     if os.path.exists(gosum):
         with open(gosum) as f, open(os.path.join(HARNESS, "go.sum"), "w") as g:
             g.write(f.read())
-    r = run(["go", "build", "-tags", "verif", "-o", HBIN, "."], cwd=HARNESS, env=goenv(), timeout=600)
+    cmd = ["go", "build", "-tags", "verif", "-o", HBIN, "."]
+    if REPO != "/repo":
+        # same module file with the replace directive pointing at the alternative checkout
+        mf = os.path.join(HARNESS, "alt.mod")
+        with open(os.path.join(HARNESS, "go.mod")) as f, open(mf, "w") as g:
+            g.write(f.read().replace("=> /repo", "=> " + REPO))
+        with open(os.path.join(HARNESS, "go.sum")) as f, open(os.path.join(HARNESS, "alt.sum"), "w") as g:
+            g.write(f.read())
+        cmd = ["go", "build", "-modfile", mf, "-tags", "verif", "-o", HBIN, "."]
+    r = run(cmd, cwd=HARNESS, env=goenv(), timeout=600)
     if r.returncode != 0:
         raise BuildError("go-build", r.stdout)
 
